@@ -19,4 +19,22 @@ TEXTS["C02"] = {
     "note": TB,
     "technique": "Lean 4 theorems over an executable model of the interchain contract + differential correspondence with the real executor",
 }
+TEXTS["C04"] = {
+    "text": "The transition table is regenerated from transaction_manager.go on every run and the theorems are re-proved against it: no transition leaves SUCCESS/FAILURE/ROLLBACK "
+            "(C04_table_no_exit_from_final, lifted to all events: C04_final_absorbing_step), every FSM step is a protocol edge (C04_step_is_protocol_edge), Report moves a one-to-one "
+            "record only along the FSM and refuses receipts in final states (C04_report_moves_along_fsm, C04_report_refused_when_final), GetStatus returns the stored status. "
+            "History-level finality is decided by the monitor on the real node (protocol automaton written from the property text) and by the model correspondence; "
+            "the executor's direct status writes at timeout are covered by C06's theorems.",
+    "note": TB + " Extractor go/extract (go/packages + go/ast) is trusted to copy the literal table.",
+    "technique": "Lean 4 table theorems (decide over the extracted FSM, lifted by lemma) + model correspondence + protocol monitor",
+}
+TEXTS["C06"] = {
+    "text": "Proved on the model of setTimeoutList/getTimeoutList/setTimeoutRollback for all ledgers, heights, ids: an accepted plain request with 0<T (no overflow) is recorded for exactly H+T "
+            "(C06_request_recorded_at_deadline), T<=0/overflow/rejected/batch/begin-failed requests are never recorded (C06_zero_never, C06_rejected_never), an accepted receipt requests removal "
+            "at the recorded height (C06_receipt_removes), the timeout step of block h moves every listed id to BEGIN_ROLLBACK and touches no unlisted id "
+            "(C06_fires_at_deadline, C06_not_listed_untouched). The end-to-end statement over histories is checked by model correspondence and the protocol monitor; "
+            "known finding: receipts from an unordered source service are not removed.",
+    "note": TB,
+    "technique": "Lean 4 theorems over the executable timeout-bookkeeping model + differential correspondence + protocol monitor",
+}
 NOT_YET = {}
